@@ -11,3 +11,7 @@ import TlxVerif.Props.C01
 #print axioms TlxVerif.C01.exists_refines
 #print axioms TlxVerif.C01.insertDescend_flatten
 #print axioms TlxVerif.C01.insertDescend_sep
+#print axioms TlxVerif.C01.erase_one_refines
+#print axioms TlxVerif.C01.erase_iter_refines_partial
+#print axioms TlxVerif.C01.copy_assign_refine
+#print axioms TlxVerif.C01.eraseTop_ok
